@@ -663,6 +663,8 @@ class Exec(Interp):
                 res = SV(rk, t)
                 if is_refkind(rk):
                     st.assume(z3.And((t >= 0) if rk.nullable else (t > 0), t < st.nref))
+                if rk is KVal:
+                    st.assume(val_wf(t, st.nref))
             ctx.result = res
             if chosen.returns is not None:
                 rv = self.spec_value(st, chosen.returns, ctx, env, fi.module, fi)
@@ -731,6 +733,8 @@ class Exec(Interp):
                     st.assume(t > 0)
             if isinstance(kind, KEnum):
                 st.assume(z3.Or([t == int(m.value) for m in kind.cls]))
+            if kind is KVal:
+                st.assume(val_wf(t, st.nref0))
             env[nm] = sv
         return env
 
